@@ -668,7 +668,9 @@ class Tr:
             def visit_Subscript(s2, node):
                 d_ = dotted(node.value)
                 if d_ in tr.spec.attrs and isinstance(tr.spec.attrs[d_][0], tuple) and tr.spec.attrs[d_][0][0] == 'list' \
-                        and isinstance(node.slice, ast.Constant) and node.slice.value == 0:
+                        and ((isinstance(node.slice, ast.Constant) and node.slice.value == 0) or
+                             (isinstance(node.slice, ast.UnaryOp) and isinstance(node.slice.op, ast.USub)
+                              and isinstance(node.slice.operand, ast.Constant) and node.slice.operand.value == 1)):
                     return s2.note(node, {'idem': True})
                 if isinstance(node.value, ast.Name) and node.value.id in tr.vars and isinstance(tr.vars[node.value.id][1], tuple) \
                         and tr.vars[node.value.id][1][0] == 'list' and tr.spec.mode != 'pure':
@@ -710,7 +712,8 @@ class Tr:
         if isinstance(call, ast.Subscript):
             at, getter, _ = sp.attrs[dotted(call.value)]
             r = self.fresh('r')
-            return '(bindr (lget0 %s) %s (fun %s =>\n %s))' % (getter.format(s=sp.state[0]), sp.state[0], r, k(r, at[1]))
+            fn = 'lget0' if isinstance(call.slice, ast.Constant) else 'lgetlast'
+            return '(bindr (%s %s) %s (fun %s =>\n %s))' % (fn, getter.format(s=sp.state[0]), sp.state[0], r, k(r, at[1]))
         if isinstance(call, ast.Call) and isinstance(call.func, ast.Attribute) and call.func.attr == 'pop' \
                 and dotted(call.func.value) in sp.attrs and dotted(call.func) not in sp.calls:
             at, getter, setter = sp.attrs[dotted(call.func.value)]
